@@ -57,6 +57,7 @@ type World struct {
 	CheckJobs bool
 	// SeekRows makes SeekTime verify the stored deliveries right after the call
 	SeekRows bool
+	pruneLog []pruneRun
 	// NoJobs makes RunJob a no-op that still takes its time slot (twin runs)
 	NoJobs bool
 	// PublishFaultAt, when > 0, makes the next Publish run its first attempt
@@ -1240,10 +1241,51 @@ func (w *World) rowIDs(s *Sub) map[string][]string {
 }
 
 func (w *World) retained(s *Sub, d *Del, rows map[string]bool, byMsg map[string][]string) bool {
+	there := len(byMsg[d.Msg.ID]) > 0
 	if d.AckID != "" {
-		return rows[d.AckID]
+		there = rows[d.AckID]
 	}
-	return len(byMsg[d.Msg.ID]) > 0
+	if !there && !d.Wild && !d.pruneChecked {
+		d.pruneChecked = true
+		w.checkPrunedLegitimately(s, d)
+	}
+	return there
+}
+
+type pruneRun struct {
+	job    string
+	minAge time.Duration
+	at     Iv
+}
+
+// checkPrunedLegitimately: the row of a delivery the model still knows is gone.
+// Only two jobs remove deliveries of a live subscription: the completed-deliveries
+// pruner (completed for at least its age threshold) and the expired-deliveries
+// pruner (retention over). If no run of either can account for it - by the
+// model's own record of when the delivery was settled - a seek has lost a
+// message that was retained by every rule the jobs were given.
+func (w *World) checkPrunedLegitimately(s *Sub, d *Del) {
+	for _, r := range w.pruneLog {
+		switch r.job {
+		case "prune-completed-deliveries":
+			if d.State != Out && !d.DoneAt.Lo.IsZero() && !d.DoneAt.Lo.After(r.at.Hi.Add(-r.minAge)) {
+				return
+			}
+			if d.DoneAt.Lo.IsZero() && d.State != Out {
+				return // the model has no record of when it was settled
+			}
+		case "prune-expired-deliveries":
+			if d.Exp.Lo.Before(r.at.Hi) {
+				return
+			}
+		case "prune-deleted-subscription-deliveries", "prune-deleted-subscriptions":
+			if s.Gen > 1 || !s.Topic.Live {
+				return // rows of an earlier incarnation / of a subscription whose topic went away: not tracked here
+			}
+		}
+	}
+	w.stat("missing_rows_no_job_accounts_for", 1)
+	w.violate("C13", "seek:settled-delivery-gone-before-any-job-could-remove-it", "at a seek on %s the row of %s is gone (state %s, settled %s, retention until %s), but none of the %d prune runs so far could have removed it under its own rule (completed for >= its age threshold, or retention over): a message that was retained by every rule cannot be replayed", s.Name, d, d.State, d.DoneAt, d.Exp, len(w.pruneLog))
 }
 
 func (w *World) revive(d *Del, at Iv) {
@@ -1534,6 +1576,7 @@ func (w *World) RunJob(name string, minAge time.Duration, maxDelete int) (int, e
 	lo := w.now()
 	n, err := services.VerifPruneRunOnce(w.Ctx, w.E.Client, name, actions.PruneCommonParams{MinAge: minAge, MaxDelete: maxDelete})
 	hi := w.now()
+	w.pruneLog = append(w.pruneLog, pruneRun{name, minAge, Iv{lo, hi}})
 	res := fmt.Sprintf("n=%d", n)
 	if err != nil {
 		res += " err=" + err.Error()
@@ -1600,6 +1643,11 @@ func (w *World) checkJobDiff(job string, minAge time.Duration, maxDelete, n int,
 				case job == "prune-completed-deliveries" && t == "deliveries":
 					c, set := parseT(r["completed_at"])
 					ok = set && !c.After(cut)
+					// the stamp the job went by must be the time the delivery really was
+					// settled: by the model's own record of the client call that settled it
+					if d := w.ByAck[id]; ok && d != nil && !d.Wild && d.State != Out && !d.DoneAt.Lo.IsZero() && d.DoneAt.Lo.After(hi.Add(-minAge)) {
+						bad("removed-delivery-settled-more-recently-than-min-age", "deleted delivery %s, which was settled (%s) at %s - less than the age threshold before this run; its stored completed_at says %s", short(id), d.State, d.DoneAt, r["completed_at"])
+					}
 				case job == "prune-expired-deliveries" && t == "deliveries":
 					x, set := parseT(r["expires_at"])
 					ok = set && x.Before(hi)
